@@ -27,7 +27,7 @@ const propID = "C16"
 
 const H = world.H
 
-var kinds = []string{"small", "spooled", "cut-spooled", "retry-fail", "redirects", "five-hosts", "discarded", "five-hosts-limited", "discarded-gzip", "redirect-limit", "stalled"}
+var kinds = []string{"small", "spooled", "cut-spooled", "retry-fail", "redirects", "five-hosts", "discarded", "five-hosts-limited", "discarded-gzip", "redirect-limit", "stalled", "rejected-scheme", "rejected-host"}
 
 type scen struct {
 	Seq     []string `json:"sequence"`
@@ -44,6 +44,12 @@ var bigBody = strings.Repeat("lorem ipsum dolor sit amet, consectetur adipiscing
 
 // seedOf returns the seed URL of the i-th element of a sequence (every element gets its own URL space).
 func seedOf(kind string, i int) string {
+	switch kind {
+	case "rejected-scheme": // a seed the queue hands over and the URL normalisation refuses: nothing is fetched for it
+		return fmt.Sprintf("ftp://files.example/%s-%d/readme.txt", kind, i)
+	case "rejected-host":
+		return fmt.Sprintf("http://localhost/%s-%d/admin", kind, i)
+	}
 	return fmt.Sprintf("%s/%s-%d/page", H, kind, i)
 }
 
@@ -370,7 +376,7 @@ func main() {
 		"states": total.States, "transitions": total.Transitions, "traces_validated_against_impl": total.Executions,
 		"samples": []any{total.Sample}, "exhaustive": total.Exhaustive, "sequences": len(ss), "alphabet": kinds,
 		"quiescent_states_reached": finals,
-		"explanation":              "every sequence of seed kinds up to the length bound (quick 2, thorough 3) over {small page+asset, 2.2 MiB spooled text body, spooled body whose connection breaks mid-way, retry-then-fail, redirect chain, five hosts, discarded 429, five hosts all answering 429, gzip-encoded challenge page and 503, redirect chain beyond --max-redirect with spooled bodies} run to quiescence plus one limiter clean-up period on the real pipeline (rate limiter on, virtual clock); the footprint vector (live threads, open bodies, temp files, reactor entries/tokens, limiter buckets, unreleased item bodies) must equal the idle footprint measured before the first seed; limiter table within its bound at every step",
+		"explanation":              "every sequence of seed kinds up to the length bound (quick 2, thorough 3) over {small page+asset, 2.2 MiB spooled text body, spooled body whose connection breaks mid-way, retry-then-fail, redirect chain, five hosts, discarded 429, five hosts all answering 429, gzip-encoded challenge page and 503, redirect chain beyond --max-redirect with spooled bodies, a seed whose scheme / host the URL normalisation refuses} run to quiescence plus one limiter clean-up period on the real pipeline (rate limiter on, virtual clock); the footprint vector (live threads, open bodies, temp files, reactor entries/tokens, limiter buckets, unreleased item bodies) must equal the idle footprint measured before the first seed; limiter table within its bound at every step",
 	}, []string{
 		"goroutines = threads owned by the scheduler (every go statement of the instrumented packages); file descriptors are represented by open response bodies and temp files - OS-level fd/goroutine counts of the real process are outside this part",
 		"fixpoint: since every sequence returns to the one idle state, the reachable quiescent states are closed under the alphabet at depth 1",
